@@ -533,7 +533,8 @@ def check_peer(pv, h, what):
 class Prop:
     pid = 'C19'
     props_file = 'Props/C19.v'
-    required_theorems = ['bmp_length_exact', 'bmp_readback', 'bmp_stream_readback', 'bmp_vflag_iff_v6']
+    required_theorems = ['bmp_length_exact', 'bmp_readback', 'bmp_stream_readback', 'bmp_vflag_iff_v6',
+                         'mrt_readback', 'mrt_length_exact', 'table_dump_counts_consistent']
     correspondence_name = ('Model/Bmp.v bmp_encode_all vs packet/src/bmp.rs BmpCodec::encode (harness/hx-mon), '
                            'bytes compared one to one')
     rule = ('a case is a session: 1..6 messages through one codec into one (possibly pre-filled) buffer; '
